@@ -1,4 +1,5 @@
 import Proofs.C15
+import Proofs.C15Wait
 /-!
 # C15 — cancellation stops execution promptly and is otherwise invisible
 
@@ -136,5 +137,112 @@ example : run 50 (some (loopCancelIndex 2 + 1)) (loopTrace 2 8) 0 0 ⟨0, 0⟩ =
 example : (loopCancelIndex 2 + 1) + 50 ≤ (loopTrace 2 8).length := by decide
 
 example : run 50 none (loopTrace 2 8) 0 0 ⟨0, 0⟩ = .finished 42 ⟨8, 0⟩ := by decide
+
+
+/-! ## Waiting for a system() / piped command
+
+The wait state of the model (`GoawkModel.C15Wait`): a dispatch may wait for a command; the clock is in milliseconds. -/
+
+set_option maxRecDepth 100000 in
+/-- Which commands there are and what they are given, as the source says now: every command is made by `execShell`, under
+a cancellable context with `exec.CommandContext` (killed when the context is done), always with `WaitDelay = 250 ms`; the
+commands of `system()` (callBuiltin) and `cmd | getline` (getInputScannerPipe) — and only they — are handed the
+interpreter's standard input; the interpreter waits for a command in `waitExitCode` only, called by `system()` and by the
+`Close` of the two command streams. -/
+theorem gen_matches_cmds :
+    C15Cmds.execShellBody = ["executable := p.shellCommand[0]", "args := p.shellCommand[1:]", "args = append(args, code)",
+      "var cmd *exec.Cmd",
+      "if p.checkCtx { cmd = exec.CommandContext(p.ctx, executable, args...) } else { cmd = exec.Command(executable, args...) }",
+      "cmd.WaitDelay = 250 * time.Millisecond", "return cmd"] ∧
+    C15Cmds.waitDelayMs = 250 ∧
+    C15Cmds.cmdStdinWrites = [("interp.getInputScannerPipe", "cmd.Stdin = p.stdin"), ("interp.callBuiltin", "cmd.Stdin = p.stdin")] ∧
+    C15Cmds.commandConstructors = [("interp.execShell", "exec.CommandContext"), ("interp.execShell", "exec.Command")] ∧
+    C15Cmds.waitCallSites = [("waitExitCode", "cmd.Wait"), ("newOutCmdStream", "cmd.StdinPipe"),
+      ("outCmdStream.Close", "waitExitCode"), ("inCmdStream.Close", "waitExitCode"), ("interp.callBuiltin", "waitExitCode")] := by
+  decide
+
+/-- the assumption under which waiting is prompt: the goroutine that copies `Config.Stdin` to a command (it exists when
+`Config.Stdin` is not an `*os.File` and the command is one of `system()` / `cmd | getline`) ends within `d` ms of the
+command's death — every command of the run -/
+def StdinCopiesTerminate (d : Nat) (ss : List Step) : Prop := ∀ w, Step.wait w ∈ ss → w.copy.terminatesWithin d
+
+/-- **One wait, assuming the stdin copy terminates.** A `Wait` for a command under a context that becomes done at `τ`
+returns at most `max WaitDelay d` ms after `τ` (or after its start, if later) — however long the command would run, also
+when a grandchild survives the kill and keeps the output pipe open. -/
+theorem wait_prompt_assuming_stdin_copy_terminates (w : Cmd) (start τ d : Nat) (h : w.copy.terminatesWithin d) :
+    ∃ r, waitReturns w start (some τ) = some r ∧ start ≤ r ∧ r ≤ max τ start + max waitDelay d :=
+  waitReturns_prompt w start τ d h
+
+/-- **Prompt, with waits, assuming the stdin copies terminate.** For every run (dispatches and waits, unbounded), every
+cancellation by the script (`τi`) and every time `τ` at which a timer / deadline makes the context done: the run is never
+stuck in a wait; when it returns the clock is at most `max clk τ + max WaitDelay d` (the wait that was in progress at `τ`
+ended within `max WaitDelay d` ms and no later command was waited for), and fewer than `N` dispatches ran under the done
+context — whether it returned the context's error or the program ended first. -/
+theorem prompt_with_waits_assuming_stdin_copies_terminate (τ d : Nat) (τi : Option Nat) (ss : List Step)
+    (hterm : StdinCopiesTerminate d ss) (clk c : Nat) (hc : c < N) :
+    match runW N τi (some τ) ss 0 clk c 0 ⟨0, 0⟩ with
+    | .stuck _ => False
+    | .ctxErr _ clk' after _ => clk' ≤ max clk τ + max waitDelay d ∧ after < N
+    | .finished clk' after _ => clk' ≤ max clk τ + max waitDelay d ∧ after < N :=
+  runW_prompt_aux τ d (max clk τ + max waitDelay d) τi (by omega) ss hterm 0 clk c 0 ⟨0, 0⟩ hc (by omega)
+    (Nat.zero_le _) (fun _ => rfl)
+
+/-- … and the commands still open when the run returns (closeAll: `cmd | getline` streams, `print | cmd` streams) are
+all reaped by then + `max WaitDelay d` -/
+theorem close_all_prompt_assuming_stdin_copies_terminate (τ d : Nat) (open_ : List (Cmd × Nat))
+    (hterm : ∀ p ∈ open_, p.1.copy.terminatesWithin d ∧ p.2 ≤ τ) (now : Nat) (hnow : now ≤ τ + max waitDelay d) :
+    ∃ r, closeAllReturns (some τ) open_ now = some r ∧ r ≤ τ + max waitDelay d :=
+  closeAll_prompt τ d _ (Nat.le_refl _) open_ hterm now hnow
+
+/-- the same statement without the assumption: what the property asks of every run -/
+def PromptWithWaitsFull : Prop :=
+  ∀ (τ : Nat) (τi : Option Nat) (ss : List Step) (clk c : Nat), c < N →
+    ∃ d, match runW N τi (some τ) ss 0 clk c 0 ⟨0, 0⟩ with
+      | .stuck _ => False
+      | .ctxErr _ clk' _ _ => clk' ≤ max clk τ + max waitDelay d
+      | .finished clk' _ _ => clk' ≤ max clk τ + max waitDelay d
+
+/-- a `Wait` whose stdin copy is blocked never returns — with or without a context (finding G15-1; the harness replays it:
+`Config.Stdin` = the read end of an `io.Pipe` nobody writes to, `system("sleep 21")`, 200 ms deadline) -/
+theorem blocked_stdin_copy_never_returns (w : Cmd) (start : Nat) (τ : Option Nat) (h : w.copy = .blocked) :
+    waitReturns w start τ = none :=
+  waitReturns_blocked w start τ h
+
+/-- **The full statement fails** for the code as it is: the G15-1 witness is stuck in its wait -/
+theorem prompt_with_waits_full_fails : ¬ PromptWithWaitsFull := by
+  intro h
+  obtain ⟨d, hd⟩ := h 200 none [.wait ⟨some 21000, .blocked, false⟩] 0 0 poll_interval_small.1
+  simp [runW, poll, cancelledW, cancelledBy, waitReturns, deadAt] at hd
+
+/-- without waits and with no timer the model with waits is the model without (`run`), so the theorems above about `run`
+are about the same machine -/
+theorem waits_extend_run (τi : Option Nat) (ds : List D) (clk c : Nat) :
+    (runW N τi none (ds.map Step.d) 0 clk c 0 ⟨0, 0⟩).forget = some (run N τi ds 0 c ⟨0, 0⟩).dropCounter :=
+  runW_no_waits N τi ds 0 clk c 0 ⟨0, 0⟩
+
+/-- Non-vacuity: the assumption is satisfiable — an `*os.File` stdin (no copy), a `bytes.Reader` (the copy is over at
+once), a reader that yields every 50 ms — and is exactly what fails for the never-written `io.Pipe` -/
+example : StdinCopiesTerminate 50 [.d .plain, .wait ⟨some 21000, .none, true⟩, .wait ⟨none, .yieldsAfter 0, false⟩,
+    .wait ⟨some 5, .yieldsAfter 50, false⟩] := by
+  intro w hw
+  simp at hw
+  rcases hw with rfl | rfl | rfl <;> simp [StdinCopy.terminatesWithin]
+
+example : ¬ StdinCopiesTerminate 1000000 [.wait ⟨some 21000, .blocked, false⟩] := by
+  intro h
+  exact h _ (List.mem_cons_self ..)
+
+/-- Non-vacuity (small interval so that the kernel can evaluate): `print "pre"; system("sleep 21"); while (1) tick()` with a
+200 ms deadline. With an `*os.File` stdin the wait ends at 200 ms and the poll returns the context's error 6 dispatches
+later; with a reader that yields 4 s later the wait ends at 4200 ms; when a grandchild holds the output pipe, at 450 ms. -/
+example : runW 8 none (some 200) [.d .plain, .wait ⟨some 21000, .none, false⟩, .d .tick, .d .plain, .d .tick, .d .plain,
+    .d .tick, .d .plain, .d .tick, .d .plain, .d .tick] 0 0 0 0 ⟨0, 0⟩ = .ctxErr 7 200 5 ⟨3, 3⟩ := by decide
+
+example : waitReturns ⟨some 21000, .yieldsAfter 4000, false⟩ 0 (some 200) = some 4200 := by decide
+example : waitReturns ⟨some 21000, .none, true⟩ 0 (some 200) = some 450 := by decide
+example : waitReturns ⟨some 30, .yieldsAfter 0, false⟩ 100 (some 200) = some 130 := by decide
+example : runW 8 none (some 200) [.d .plain, .wait ⟨some 21000, .blocked, false⟩, .d .tick] 0 0 0 0 ⟨0, 0⟩ = .stuck 1 := by decide
+/-- a command is not started under a context that is already done: the blocked reader does no harm then -/
+example : runW 8 none (some 0) [.d .plain, .wait ⟨some 21000, .blocked, false⟩, .d .tick] 0 0 0 0 ⟨0, 0⟩ = .finished 0 3 ⟨1, 1⟩ := by decide
 
 end GoawkModel.PropsC15
